@@ -84,6 +84,26 @@ def _current_element(tb: TermBuilder, a, seq: Poly, loop: ast.AST) -> bool:
     return len(a.sub) == 2 and k is not None and k.node is loop and (k.kind == "iter" or (k.kind == "idx" and k.name == "elem" and len(k.sub) == 1))
 
 
+def pair_alignment(tb: TermBuilder, fn, c: ast.Call, n: Node, loop: ast.AST) -> Tuple[bool, bool, Optional[Poly], Optional[Poly]]:
+    """for the call `c` = _update_priority(index, priority) evaluated at `n` inside `loop` of update_priorities (`fn`):
+    (the index is the current element of the indices given, the priority is computed from the current element of the priorities given and from
+    no other element of either sequence, term of the index, term of the priority).  `current` is decided by `_current_element`: however the
+    loop visits the pairs (zip, enumerate, positions), element k of one sequence meets element k of the other."""
+    if len(fn.params) < 3 or len(c.args) + len(c.keywords) < 2:
+        return False, False, None, None
+    IDX, PRIO = Poly.atom(f"param:{fn.qualname}.{fn.params[1]}"), Poly.atom(f"param:{fn.qualname}.{fn.params[2]}")
+    a_idx, a_prio = get_kw(c, "idx", 0), get_kw(c, "priority", 1)
+    ti = tb.term(a_idx, n) if a_idx is not None else None
+    ai = single_atom(tb, ti) if ti is not None else None
+    oki = _current_element(tb, ai, IDX, loop)
+    tp = tb.term(a_prio, n) if a_prio is not None else None
+    # every element of the two sequences the priority depends on is the current one (of the priorities; none of the indices)
+    okp = tp is not None and mentions(tb, tp, lambda a: _current_element(tb, a, PRIO, loop)) \
+        and not mentions(tb, tp, lambda a: a.kind == "idx" and bool(a.sub) and len(a.sub) <= 2 and (
+            _is_sequence(tb, a.sub[0], IDX) or (_is_sequence(tb, a.sub[0], PRIO) and not _current_element(tb, a, PRIO, loop))))
+    return oki, okp, ti, tp
+
+
 def _every_pair_written(ck: Check, repo: Repo) -> None:
     ck.rule("C11.8", "update_priorities hands every (index, priority) pair of the call to _update_priority, in order: the call is evaluated in every "
                      "iteration of the loop over the pairs (nothing skips it, the loop is not left early), with the pair's own index and a priority computed "
@@ -98,7 +118,6 @@ def _every_pair_written(ck: Check, repo: Repo) -> None:
     if len(fn.params) < 3:
         return
     p_idx, p_prio = fn.params[1], fn.params[2]
-    IDX, PRIO = Poly.atom(f"param:{fn.qualname}.{p_idx}"), Poly.atom(f"param:{fn.qualname}.{p_prio}")
     for c in calls:
         n = cfg.node_of(c)
         if n is None:
@@ -135,17 +154,10 @@ def _every_pair_written(ck: Check, repo: Repo) -> None:
         if len(c.args) + len(c.keywords) < 2:
             ck.ob("C11.8", fn, c, False, "the call passes an index and a priority", construct=f"update_priorities: arguments of `{short(c, 60)}`")
             continue
-        a_idx, a_prio = get_kw(c, "idx", 0), get_kw(c, "priority", 1)
-        ti = tb.term(a_idx, n) if a_idx is not None else None
-        ai = single_atom(tb, ti) if ti is not None else None
-        ck.ob("C11.8", fn, c, _current_element(tb, ai, IDX, L.stmt),
+        oki, okp, ti, tp = pair_alignment(tb, fn, c, n, L.stmt)
+        ck.ob("C11.8", fn, c, oki,
               f"the index written is the current element of `{p_idx}` (through value-neutral conversions only)", detail=f"index = {ti.key()[:160] if ti is not None else '?'}",
               construct=f"update_priorities: index argument of `{short(c, 60)}`")
-        tp = tb.term(a_prio, n) if a_prio is not None else None
-        # every element of the two sequences the priority depends on is the current one (of the priorities; none of the indices)
-        okp = tp is not None and mentions(tb, tp, lambda a: _current_element(tb, a, PRIO, L.stmt)) \
-            and not mentions(tb, tp, lambda a: a.kind == "idx" and bool(a.sub) and len(a.sub) <= 2 and (
-                _is_sequence(tb, a.sub[0], IDX) or (_is_sequence(tb, a.sub[0], PRIO) and not _current_element(tb, a, PRIO, L.stmt))))
         ck.ob("C11.8", fn, c, okp, f"the priority written is computed from the current element of `{p_prio}` (not from another pair, not from the index)",
               detail=f"priority = {tp.key()[:160] if tp is not None else '?'}", construct=f"update_priorities: priority argument of `{short(c, 60)}`")
 
